@@ -167,7 +167,8 @@ def run(tier, replay=None):
                 jobs.append((stream, nf, part))
 
     # a frame in the middle of being written when its stream ends for the server (superseded by a newer stream / session deleted)
-    jobs.append(("getends", 1, [{"id": "getends_newer", "steps": ["newer"]}, {"id": "getends_delete", "steps": ["delete"]}]))
+    jobs.append(("getends", 1, [{"id": "getends_newer", "steps": ["newer"]}, {"id": "getends_delete", "steps": ["delete"]},
+                               {"id": "getends_cancel", "steps": ["cancel"]}]))
 
     def one(job):
         stream, nf, part = job
